@@ -45,6 +45,7 @@ package magic
 //@   loop 2 unroll
 
 //@ func magic.offset$1
+//@   inline
 //@   requires offset >= 0
 
 // linesOK(s): every line of s (LF or CRLF terminated; the last one possibly unterminated) is
